@@ -882,18 +882,18 @@ fn real_oracle(c: &RealCase, cx: &mut CaseCtx) -> Result<(), String> {
                 return Ok(());
             }
             let req = capi::message::send_message_event::v3::Request::new_raw(room, OwnedTransactionId::from(c.s1.as_str()), ruma_events::MessageLikeEventType::from("m.room.message"), content);
-            request_roundtrip(req, &v, cx)?;
+            request_roundtrip_eq(req, &v, cx)?;
             cx.class("real_client");
         }
         1 => {
             let state: Raw<ruma_events::AnyStateEventContent> = Raw::from_json(serde_json::value::to_raw_value(&json!({"topic": c.s2})).unwrap());
             let req = capi::state::send_state_event::v3::Request::new_raw(room, ruma_events::StateEventType::from("m.room.topic"), c.s1.clone(), state);
-            request_roundtrip(req, &v, cx)?;
+            request_roundtrip_eq(req, &v, cx)?;
             cx.class("real_client");
         }
         2 => {
             let req = capi::state::get_state_events_for_key::v3::Request::new(room, ruma_events::StateEventType::from(if c.n % 2 == 0 { "m.room.member" } else { "org.example.t" }), c.s1.clone());
-            request_roundtrip(req, &v, cx)?;
+            request_roundtrip_eq(req, &v, cx)?;
             cx.class("real_client");
         }
         3 => {
@@ -906,12 +906,12 @@ fn real_oracle(c: &RealCase, cx: &mut CaseCtx) -> Result<(), String> {
             if !c.s2.is_empty() {
                 req.reason = Some(c.s2.clone());
             }
-            request_roundtrip(req, &v, cx)?;
+            request_roundtrip_eq(req, &v, cx)?;
             cx.class("real_client");
         }
         4 => {
             let req = capi::room::get_room_event::v3::Request::new(room, event);
-            request_roundtrip(req, &v, cx)?;
+            request_roundtrip_eq(req, &v, cx)?;
             cx.class("real_client");
         }
         5 => {
@@ -926,7 +926,7 @@ fn real_oracle(c: &RealCase, cx: &mut CaseCtx) -> Result<(), String> {
         }
         7 => {
             let req = capi::profile::get_display_name::v3::Request::new(user);
-            request_roundtrip(req, &v, cx)?;
+            request_roundtrip_eq(req, &v, cx)?;
             cx.class("real_client");
         }
         8 => {
@@ -934,7 +934,7 @@ fn real_oracle(c: &RealCase, cx: &mut CaseCtx) -> Result<(), String> {
                 Ok(a) => a,
                 Err(_) => return Ok(()),
             });
-            request_roundtrip(req, &v, cx)?;
+            request_roundtrip_eq(req, &v, cx)?;
             cx.class("real_client");
             // the SSO redirect: a real response with a declared 302 status and header fields
             let ascii = |s: &str| s.chars().filter(|ch| ch.is_ascii_graphic()).collect::<String>();
@@ -1034,6 +1034,21 @@ fn real_oracle(c: &RealCase, cx: &mut CaseCtx) -> Result<(), String> {
     Ok(())
 }
 
+/// Two messages that encode alike can still differ (a field dropped on the way out is absent from
+/// both encodings): the received value must also print like the one sent.
+fn request_roundtrip_eq<R>(req: R, versions: &[MatrixVersion], cx: &mut CaseCtx) -> Result<(), String>
+where
+    R: OutgoingRequest + IncomingRequest + std::fmt::Debug,
+{
+    let want = format!("{req:?}");
+    if let Some((req2, http1)) = request_roundtrip(req, versions, cx)? {
+        if format!("{req2:?}") != want {
+            return Err(format!("the received request differs from the one sent although both encode alike: sent {want}, received {req2:?}; uri {}", http1.uri()));
+        }
+    }
+    Ok(())
+}
+
 fn request_roundtrip_fed<R>(req: R, versions: &[MatrixVersion], cx: &mut CaseCtx) -> Result<(), String>
 where
     R: OutgoingRequest + IncomingRequest + std::fmt::Debug,
@@ -1057,7 +1072,11 @@ where
     let args = route(&m, &path).ok_or_else(|| format!("the encoded path {path:?} does not match any path of the endpoint's metadata"))?;
     let req2 = R::try_from_http_request(http1.clone(), &args).map_err(|e| format!("the receiving side rejects the encoded request: {e}; uri {}; original {req:?}", http1.uri()))?;
     let http2 = req2.clone().try_into_http_request::<Vec<u8>>("https://hs.example", token, versions).map_err(|e| format!("re-encoding failed: {e}"))?;
-    http_eq(&http1, &http2).map_err(|e| format!("re-encoding the received request gives a different HTTP message: {e}; original {req:?}, received {req2:?}"))
+    http_eq(&http1, &http2).map_err(|e| format!("re-encoding the received request gives a different HTTP message: {e}; original {req:?}, received {req2:?}"))?;
+    if format!("{req2:?}") != format!("{req:?}") {
+        return Err(format!("the received request differs from the one sent although both encode alike: sent {req:?}, received {req2:?}; uri {}", http1.uri()));
+    }
+    Ok(())
 }
 
 fn real_case() -> impl Strategy<Value = RealCase> {
